@@ -83,7 +83,10 @@ inline TCircuit genCircuit(SplitMix &g, const GenOpts &o) {
     std::array<long long, 8> c{};
     bool fx = o.fixed && g.coin(15);
     c[6] = fx; c[7] = g.coin(80);
-    if (fx) { c[2] = g.uni(0, 8) * sc; c[3] = g.uni(0, 3) * rh / (g.coin(50) ? 1 : 2); c[4] = g.uni(0, 7); c[5] = 0; c[0] = x0 + g.uni(-10, W / sc + 5) * sc; c[1] = y0 + g.uni(-10, (y - y0) / sc + 5) * sc; t.cells.push_back(c); continue; }
+    if (fx) { c[2] = g.uni(0, 8) * sc; c[3] = g.uni(0, 3) * rh / (g.coin(50) ? 1 : 2); c[4] = g.uni(0, 7); c[5] = 0; c[0] = x0 + g.uni(-10, W / sc + 5) * sc; c[1] = y0 + g.uni(-10, (y - y0) / sc + 5) * sc;
+      /* two fixed cells with the SAME lower-left corner and different extents (obstruction lists are sometimes deduplicated by corner) */
+      if (g.coin(20)) for (auto &pc : t.cells) if (pc[6]) { c[0] = pc[0]; c[1] = pc[1]; break; }
+      t.cells.push_back(c); continue; }
     int k = 1; if (o.multirow && g.coin(15)) k = (int)g.uni(2, 3);
     long long ww = g.uni(1, 6) * sc;
     if (used + ww * k > budget) { ww = sc; k = 1; }
